@@ -227,6 +227,21 @@ CHECKS["C19"] = dict(
     technique="TLA+-enumerated corpora fed to every downstream entry point, observations validated by TLC",
     design="7/C19")
 
+CHECKS["C11"] = dict(
+    category="model_checking",
+    text="Int64.tla implements two's-complement 64-bit arithmetic for TLC (32-bit integers) and is self-tested in every run against "
+         "a vector table computed with Go's int64; Arith.tla is the reference evaluator (trees, short circuit, sequencing, faults, no "
+         "assignment after the first fault, C-undefined cases excluded) and renderer (minimal parentheses by C precedence and "
+         "associativity / fully parenthesised).  TLC enumerates all depth-1 trees over every operator and the operand set, depth-2 "
+         "trees with effect / fault / overflow subtrees in every position, all pairs of binary operators in both shapes, x 4 stores; "
+         "the real ExecEnv.Eval evaluates both renderings three times; ArithCheck validates value, fault <=> ArithExprError, the "
+         "store afterwards and run-to-run identity.  Agreement with the eager variant of the evaluator is the known finding "
+         "F-C11-eager-operands.",
+    note="Trusted: Int64.tla after its self-test, Arith.tla's reading of the C rules, the exclusion predicate for C-undefined and "
+         "unordered-fault cases, TLC.  Depth-3 trees are not enumerated.",
+    technique="TLA+ reference evaluator over a 64-bit arithmetic library in TLA+; trees enumerated by TLC, observations validated by TLC",
+    design="7/C11")
+
 NOT_APPLICABLE = {}
 
 ALL = ["C%02d" % i for i in range(1, 21)]
